@@ -419,7 +419,9 @@ func oracle(c *caseT, err error, path string) (okAll bool) {
 	if len(ats) > 0 {
 		if in, why := inSpan(ats[0], c.Fail); !in {
 			sig := "error-position-outside-failing-statement"
-			if ats[0].File != c.Fail.File {
+			if ats[0].Line == 0 {
+				sig = "reported-position-without-file-or-line"
+			} else if ats[0].File != c.Fail.File {
 				sig = "error-position-in-wrong-file"
 			}
 			violate(sig, c, why+" | "+text, fmt.Sprintf("inside %q", c.src(c.Fail.File)[c.Fail.Lo:c.Fail.Hi]), path+": first position within the failing statement")
@@ -442,7 +444,9 @@ func oracle(c *caseT, err error, path string) (okAll bool) {
 		}
 		if in, why := inSpan(ats[i], s); !in {
 			sig := "trace-entry-outside-call-statement"
-			if ats[i].File != s.File {
+			if ats[i].Line == 0 {
+				sig = "reported-position-without-file-or-line"
+			} else if ats[i].File != s.File {
 				sig = "trace-entry-in-wrong-file"
 			}
 			violate(sig, c, fmt.Sprintf("entry %d: %s | %s", i, why, clip(text, 400)), fmt.Sprintf("inside %q", c.src(s.File)[s.Lo:s.Hi]),
@@ -859,6 +863,9 @@ func main() {
 	}
 	rng := lib.NewRNG(f.Seed)
 	systematic(rng.Fork())
+	for _, c := range boundaryCases(rng.Fork()) {
+		checkCase(c)
+	}
 	n := f.Scale(2000, 80000)
 	for i := 0; i < n; i++ {
 		g := newGen(rng.Fork())
